@@ -26,7 +26,7 @@ RULE = ('cases = (aperture-dependent package in format 1 or 2 with 2..8 aperture
         'distance range, log-distance step, A_V range, 4 sources over all flags) drawn from the quantifier of C02; a '
         'case is non-trivial when the grid has >= 2 trial distances or some theta*d lies beyond the largest aperture; '
         'distinct = distinct canonical hash of the generated inputs')
-REQUIRED_BRANCHES = ['flux_other_unit', 'named_in_cube', 'ap_table_other_unit', 'ext_other_unit', 'theta_other_unit', 'same_theta_diff_tables',
+REQUIRED_BRANCHES = ['rebuilt_in_place', 'rebuilt_same_format', 'rebuilt_other_format', 'flux_other_unit', 'named_in_cube', 'ap_table_other_unit', 'ext_other_unit', 'theta_other_unit', 'same_theta_diff_tables',
                      'pred_fluxes', 'chi2_big_compared', 'range_other_unit', 'exact_multiple', 'format1', 'format2', 'dmin_eq_dmax', 'multi_distance', 'beyond_largest', 'inside_table',
                      'flux_monotone', 'flux_arbitrary', 'clamp_low', 'clamp_high', 'interior', 'lo_eq_hi',
                      'best_first', 'best_last', 'best_inner', 'limit_violated', 'limit_ok', 'flag4', 'flag0or9',
@@ -228,7 +228,10 @@ def gen_case(rng, directed=None):
     return dict(fmt=fmt, rkind=rkind, akind=akind, wavs=wavs, tab_w=tw, tab_chi=chi, thetas=thetas, aps=aps,
                 flux=flux, mono=mono, dmin=dmin, dmax=dmax, dunit=dunit, drange_in_unit=du, step=step, av=av,
                 sources=sources, thetas_given=thetas_given, theta_unit=theta_unit, named=named, ap_unit=ap_unit,
-                aps_stored=stored, ext_unit=ext_unit, flux_unit=flux_unit, flux_stored=flux_stored)
+                aps_stored=stored, ext_unit=ext_unit, flux_unit=flux_unit, flux_stored=flux_stored,
+                # a share of cases first builds and fits a DIFFERENT package in the same directory (a package regenerated
+                # in place within one process): anything remembered across packages by path would show
+                rebuild=(opts.get('rebuild') or (None if directed else rng.choice([None, None, None, 'same', 'other']))))
 
 
 DIRECTED = [(1, 'inside', 'interior'), (2, 'beyond', 'clamp_low'), (1, 'beyond', 'clamp_high'), (2, 'single', 'lo_eq_hi'),
@@ -242,6 +245,9 @@ DIRECTED = [(1, 'inside', 'interior'), (2, 'beyond', 'clamp_low'), (1, 'beyond',
             (1, 'inside', 'wide', None, dict(ext_unit='cm')),
             (1, 'beyond', 'wide', None, dict(flux_unit='Jy')), (2, 'inside', 'interior', None, dict(flux_unit='Jy')),
             (2, 'beyond', 'wide', None, dict(flux_unit='Jy', named=True)), (1, 'mixed', 'interior', None, dict(flux_unit='uJy')),
+            (1, 'inside', 'wide', None, dict(rebuild='same')), (2, 'beyond', 'interior', None, dict(rebuild='same')),
+            (1, 'beyond', 'wide', None, dict(rebuild='other')), (2, 'inside', 'wide', None, dict(rebuild='other')),
+            (2, 'mixed', 'interior', None, dict(rebuild='same', named=True)),
             (1, 'beyond', 'wide', None, dict(theta_unit='arcmin')), (2, 'inside', 'wide', None, dict(theta_unit='deg'))]
 
 
@@ -394,11 +400,50 @@ def case_ks(case):
     return [-0.4 * float(np.interp(w, etab, case['tab_chi'], left=0., right=0.)) / den for w in ewavs]
 
 
+def decoy_of(case):
+    """a different package for the same directory: other logd_step, perturbed fluxes in another model order, other
+    aperture tables (same smallest aperture, so theta*dmin stays inside), same or other format version"""
+    dc = dict(case)
+    nb = len(case['wavs'])
+    dc['step'] = float('%.3g' % (case['step'] * 2.7)) if case['step'] < 0.1 else float('%.3g' % (case['step'] / 2.7))
+    dc['flux'] = [[[float('%.4g' % (v * (1.7 + 0.3 * ((i + k) % 5)))) for k, v in enumerate(row)] for i, row in enumerate(rows)][::-1]
+                  for rows in case['flux']]
+    dc['flux_unit'], dc['flux_stored'] = 'mJy', None
+    dc['ap_unit'], dc['aps_stored'] = 'au', None
+    aps = [[a[0]] + [float('%.5g' % (x * 1.37)) for x in a[1:]] for a in case['aps']]
+    if case['rebuild'] == 'other':
+        dc['fmt'] = 3 - case['fmt']
+    if dc['fmt'] == 2:
+        # one shared table for the wavelength filters: the one with the smallest first aperture
+        shared = min(aps, key=lambda a: a[0])
+        named = case.get('named') or [False] * nb
+        aps = [aps[j] if named[j] else shared for j in range(nb)]
+        dc['named'] = named
+    else:
+        dc['named'] = [False] * nb
+    dc['aps'] = aps
+    dc['rebuild'] = None
+    return dc
+
+
 def run_case(case):
     d = tempfile.mkdtemp(prefix='c02_')
     branches = set()
     relaxed = 0
     try:
+        if case.get('rebuild'):
+            dc = decoy_of(case)
+            fn0, ext0, _ = build(dc, d)
+            try:
+                f0 = make_fitter(dc, d, fn0, ext0)
+                s0 = case['sources'][0]
+                with common.quiet():
+                    f0.fit(pk.make_source('decoy', s0['flags'], s0['flux'], s0['err']))
+                del f0
+            except Exception:      # noqa: BLE001 — the decoy only has to have been read; its own result is not examined
+                pass
+            branches.add('rebuilt_in_place')
+            branches.add('rebuilt_other_format' if case['rebuild'] == 'other' else 'rebuilt_same_format')
         fnames, ext, names = build(case, d)
         exp = model_side(case)
         branches.add('format%d' % case['fmt'])
